@@ -22,7 +22,8 @@ From MS Require Import Const.Model Const.Spec Const.Proofs Const.Eval Const.Eval
 
 (* an accepted program contains no write form (=, typed =, const re-declaration, modify, op=, ?=, x[i] =,
    x.f =, x[i] op=, x.f op=, loop counter, unpacking), in any scope and at any nesting depth, whose target
-   resolves -- function-locally for binding forms, lexically for the others -- to a const binding
+   resolves -- function-locally for binding forms, lexically for the others, and for `modify` ALSO as the
+   variable captured from outside the current function (what store_object writes) -- to a const binding
    (const variable, class name, imported module) *)
 Check const_never_written : forall p : block, check cfg_fixed p = true -> NoConstWrite p.
 Theorem C10_const_never_written : forall p : block, check cfg_fixed p = true -> NoConstWrite p.
@@ -41,6 +42,18 @@ Theorem C10_head_refuted : forall p, In p [wit_unwrap; wit_counter; wit_index_op
   check cfg_head p = true /\ no_const_write_b p = false /\ check cfg_fixed p = false.
 Proof. exact head_refuted. Qed.
 Print Assumptions C10_head_refuted.
+
+(* the `modify`-through-a-shadowing-local hole (fixes/const-modify-through-shadow.diff): before that fix -- with
+   the three earlier fixes in -- the witness is accepted although its `modify` stores to a captured const *)
+Check modify_shadow_refuted :
+  check cfg_pre_modify wit_modify_shadow = true /\ no_const_write_b wit_modify_shadow = false /\
+  check cfg_fixed wit_modify_shadow = false.
+Theorem C10_modify_shadow_refuted :
+  check cfg_pre_modify wit_modify_shadow = true /\ no_const_write_b wit_modify_shadow = false /\
+  check cfg_fixed wit_modify_shadow = false.
+Proof. exact modify_shadow_refuted. Qed.
+(* what `modify x` is held to: the lexical binding AND the binding captured from outside the current function *)
+Check (fun ss x => eq_refl : resolves_const ss (TCap x) = is_const (lookup_outer ss x)).
 
 (* value stability on the evaluation model (closure-free programs): any execution, any values written *)
 Check const_value_stable : forall (p : block) (st : stack) (l : log),
